@@ -131,8 +131,7 @@ def run(model, res, tier):
         if '.<locals>.' in k_[1]:
             continue
         for n_ in ast.walk(f_):
-            if isinstance(n_, ast.Call) and isinstance(n_.func, ast.Attribute) and n_.func.attr == 'parse' and \
-                    isinstance(n_.func.value, ast.Attribute) and n_.func.value.attr in cg.yacc_attrs:
+            if cg.is_yacc_parse(f_, n_):
                 region.add(k_)
     n = purity.check_region(res, c, 'R7', None, region, 'name resolution')
     purity.check_memo(res, c, 'R7', region, 'a function used in name resolution')
